@@ -315,6 +315,10 @@ class Described(Stage):
             res.bad('described:message-count', '%d message lines went in, %d messages were recorded' % (len(specs), len(got)))
         for sp, m in zip(specs, got):
             line = wire.render(sp, dialect)
+            rel = ((sp['t_us'] & 0xffffffff) - (specs[0]['t_us'] & 0xffffffff)) / 1e6
+            if abs(m.timestamp - rel) > 2e-6:
+                res.bad('described:time', '%r recorded at %r s after the first message, the lines say %r' % (line, m.timestamp, rel))
+                break
             if m.sent != sp['sent'] or m.obj.id != sp['id'] or m.name != sp['name']:
                 res.bad('described:head', '%r recorded as %s' % (line, str(m)))
                 break
